@@ -150,8 +150,13 @@ class RabbitMessageBroker(MessageBrokerT):
     ) -> None:
         logger_extra = {"routing_key": key}
         logger.debug("Requeueing message ({routing_key}).", extra=logger_extra)
-        await self.ack(key)
-        await self.enqueue(key, payload, params)
+
+        async def ack_and_enqueue() -> None:
+            await self.ack(key)
+            await self.enqueue(key, payload, params)
+
+        # shielded, because cancellation between the two steps would lose the message
+        await asyncio.shield(ack_and_enqueue())
 
     async def queue_declare(self, queue_name: str) -> None:
         logger.debug("Declaring queue '{queue_name}'.", extra={"queue_name": queue_name})
